@@ -360,6 +360,15 @@ spec:
   ports: [{number: 80, name: http, protocol: HTTP}]
   resolution: STATIC
   workloadSelector: {labels: {app: w}}
+`, `
+apiVersion: networking.istio.io/v1
+kind: ServiceEntry
+metadata: {name: se-w, namespace: ns1}
+spec:
+  hosts: [w.example.com]
+  ports: [{number: 80, name: http, protocol: HTTP}]
+  resolution: DNS
+  workloadSelector: {labels: {app: w}}
 `)
 	addCfg("we-w", `
 apiVersion: networking.istio.io/v1
@@ -444,6 +453,45 @@ spec:
 		}}
 	}
 	universe = append(universe, uobj{Name: "k8s-hl-slice", Variants: []object{hlSlice("10.1.2.1"), hlSlice("10.1.2.1", "10.1.2.2"), hlSlice()}})
+	// a second, younger DestinationRule for a.example.com in the same namespace: istio merges it into dr-a
+	// (subsets are added up); it contributes its own subset, which changes name between the variants
+	addCfg("dr-a2", `
+apiVersion: networking.istio.io/v1
+kind: DestinationRule
+metadata: {name: dr-a2, namespace: ns1}
+spec:
+  host: a.example.com
+  subsets: [{name: v2, labels: {version: v2}}]
+`, `
+apiVersion: networking.istio.io/v1
+kind: DestinationRule
+metadata: {name: dr-a2, namespace: ns1}
+spec:
+  host: a.example.com
+  subsets: [{name: v3, labels: {version: v3}}]
+`)
+	// a second WorkloadEntry behind se-w that registers with health checks enabled and no health condition
+	// yet (= unhealthy: stored, but no push is due for a not-ready newcomer), or without health checks
+	addCfg("we-w2", `
+apiVersion: networking.istio.io/v1
+kind: WorkloadEntry
+metadata:
+  name: we-w2
+  namespace: ns1
+  annotations: {proxy.istio.io/health-checks-enabled: "true"}
+spec:
+  address: 3.3.3.9
+  labels: {app: w}
+  serviceAccount: w
+`, `
+apiVersion: networking.istio.io/v1
+kind: WorkloadEntry
+metadata: {name: we-w2, namespace: ns1}
+spec:
+  address: 3.3.3.9
+  labels: {app: w}
+  serviceAccount: w
+`)
 }
 
 // state: for each universe object -1 (absent) or the variant present
@@ -531,10 +579,10 @@ func (s ustate) after(o op) ustate {
 var bases = map[string]func() ustate{
 	"empty": emptyState,
 	"rich": func() ustate {
-		return stateWith("se-a", "se-a2", "se-b", "vs-a", "dr-a", "dr-a-root", "dr-w", "tel-otel", "gateway", "vs-gw", "pa-ns1", "authz", "reqauth", "telemetry", "envoyfilter", "se-w", "we-w", "k8s-svc", "k8s-pod", "k8s-pod2", "k8s-slice", "k8s-hl", "k8s-hl-slice")
+		return stateWith("se-a", "se-a2", "se-b", "vs-a", "dr-a", "dr-a-root", "dr-w", "tel-otel", "gateway", "vs-gw", "pa-ns1", "authz", "reqauth", "telemetry", "envoyfilter", "se-w", "we-w", "k8s-svc", "k8s-pod", "k8s-pod2", "k8s-slice", "k8s-hl", "k8s-hl-slice", "dr-a2")
 	},
 	"scoped": func() ustate {
-		return stateWith("se-a", "se-a2", "se-b", "vs-a", "dr-a", "dr-a-root", "dr-w", "tel-otel", "sidecar-ns1", "gateway", "vs-gw", "pa-ns1", "authz", "reqauth", "telemetry", "envoyfilter", "se-w", "we-w", "k8s-svc", "k8s-pod", "k8s-pod2", "k8s-slice", "k8s-hl", "k8s-hl-slice")
+		return stateWith("se-a", "se-a2", "se-b", "vs-a", "dr-a", "dr-a-root", "dr-w", "tel-otel", "sidecar-ns1", "gateway", "vs-gw", "pa-ns1", "authz", "reqauth", "telemetry", "envoyfilter", "se-w", "we-w", "k8s-svc", "k8s-pod", "k8s-pod2", "k8s-slice", "k8s-hl", "k8s-hl-slice", "dr-a2")
 	},
 }
 
